@@ -570,6 +570,130 @@ func c19ReentrantCase(seed int64, idx int) (string, c19Case) {
 	return "", cs
 }
 
+// c19RebindCase: what a name stands for may change between two host calls (a function defined again with
+// another parameter list, a host value set again, a script variable of function type reassigned); Call and
+// Func reach what the name stands for now. Methods fetched with GetAttr are bound to their instance.
+func c19RebindCase(seed int64, idx int) (string, c19Case) {
+	rng := core.Derive(seed, "c19-rebind", idx)
+	cs := c19Case{Kind: "rebind", Seed: seed, Idx: idx}
+	m := core.NewMachine(core.VMOpts{Optimize: rng.Bool(), Obs: core.NewObs(core.SmallBudget, false, nil)})
+	I := goatlang.Int
+	call := func(label, name string, want string, args ...goatlang.Value) string {
+		o := m.Call(name, 1, args...)
+		if o.Failed() || len(o.Rets) != 1 || o.Rets[0] != want {
+			return fmt.Sprintf("%s: Call(%q) = %v %s%s, want %s", label, name, o.Rets, core.ErrFirstLine(o.Err), o.Panic, want)
+		}
+		return ""
+	}
+	ev := func(src string) string {
+		cs.Script += src + "\n"
+		if o := m.Eval(nil, src); o.Failed() {
+			return "evaluating " + src + " fails: " + core.ErrFirstLine(o.Err) + o.Panic
+		}
+		return ""
+	}
+	a, b := rng.Intn(20)+1, rng.Intn(20)+1
+	steps := []func() string{
+		func() string { // a function defined again with another variadic-ness
+			forms := []struct {
+				src  string
+				args []int
+				want int
+			}{
+				{"func h(a int) int { return a + 1 }", []int{a}, a + 1},
+				{"func h(a int, xs ...int) int { return a*10 + len(xs) }", []int{a}, a * 10},
+				{"func h(a int, xs ...int) int { return a*10 + len(xs) }", []int{a, 1, 2}, a*10 + 2},
+				{"func h(xs ...int) int { return 1000 + len(xs) }", []int{a, b}, 1002},
+				{"func h(xs ...int) int { return 1000 + len(xs) }", nil, 1000},
+				{"func h(a int, b int) int { return a*100 + b }", []int{a, b}, a*100 + b},
+			}
+			for n := rng.Range(2, 5); n > 0; n-- {
+				f := core.Pick(rng, forms)
+				if e := ev(f.src); e != "" {
+					return e
+				}
+				var vals []goatlang.Value
+				for _, x := range f.args {
+					vals = append(vals, I(x))
+				}
+				if e := call("after defining "+f.src, "main.h", fmt.Sprint(f.want), vals...); e != "" {
+					return e
+				}
+				if o := m.Func(m.VM.Get("main.h"), 1, vals...); o.Failed() || len(o.Rets) != 1 || o.Rets[0] != fmt.Sprint(f.want) {
+					return fmt.Sprintf("after defining %s: Func(Get(main.h)) = %v %s, want %d", f.src, o.Rets, core.ErrFirstLine(o.Err), f.want)
+				}
+			}
+			return ""
+		},
+		func() string { // a host value set again under the same name
+			m.VM.Set("main.nat", goatlang.NewFunc(1, 1, func(v *goatlang.VM, args []goatlang.Value) goatlang.Value { return I(args[0].Int() + 9) }))
+			if e := call("first native", "main.nat", fmt.Sprint(a+9), I(a)); e != "" {
+				return e
+			}
+			m.VM.Set("main.nat", goatlang.NewFunc(2, 1, func(v *goatlang.VM, args []goatlang.Value) goatlang.Value { return I(args[0].Int()*args[1].Int() + 1) }))
+			if e := call("after Set of another native under the same name", "main.nat", fmt.Sprint(a*b+1), I(a), I(b)); e != "" {
+				return e
+			}
+			if e := ev(fmt.Sprintf("nr := nat(%d, %d)", a, b)); e != "" {
+				return e
+			}
+			return call("script view of the new native", "main.getnr", fmt.Sprint(a*b+1))
+		},
+		func() string { // a script variable of function type reassigned
+			if e := ev("handler := func(x int) int { return x + 1 }"); e != "" {
+				return e
+			}
+			if e := call("function variable", "main.handler", fmt.Sprint(a+1), I(a)); e != "" {
+				return e
+			}
+			if e := ev("handler = func(x int) int { return x * 10 }"); e != "" {
+				return e
+			}
+			if e := call("function variable after reassignment", "main.handler", fmt.Sprint(a*10), I(a)); e != "" {
+				return e
+			}
+			if e := ev("func setH() { handler = func(x int) int { return x - 1 } }"); e != "" {
+				return e
+			}
+			m.Call("main.setH", 0)
+			return call("function variable after reassignment inside a function", "main.handler", fmt.Sprint(a-1), I(a))
+		},
+		func() string { // methods fetched from an instance by name
+			if e := ev(fmt.Sprintf("type T struct { A int }; func (t *T) Get(k int) int { return t.A*100 + k }; func (t *T) Inc() int { t.A++; return t.A }; obj := &T{A: %d}; other := &T{A: 77}", a)); e != "" {
+				return e
+			}
+			obj := m.VM.Get("main.obj")
+			var get, inc goatlang.Value
+			if p := core.Guard(func() { get, inc = obj.GetAttr("Get"), obj.GetAttr("Inc") }); p != "" {
+				return "GetAttr of a method panicked: " + p
+			}
+			if o := m.Func(get, 1, I(b)); o.Failed() || len(o.Rets) != 1 || o.Rets[0] != fmt.Sprint(a*100+b) {
+				return fmt.Sprintf("Func(obj.GetAttr(\"Get\"), %d) = %v %s, want %d", b, o.Rets, core.ErrFirstLine(o.Err), a*100+b)
+			}
+			if o := m.Func(inc, 1); o.Failed() || len(o.Rets) != 1 || o.Rets[0] != fmt.Sprint(a+1) {
+				return fmt.Sprintf("Func(obj.GetAttr(\"Inc\")) = %v %s, want %d", o.Rets, core.ErrFirstLine(o.Err), a+1)
+			}
+			if got := obj.GetAttr("A").Int(); got != a+1 {
+				return fmt.Sprintf("obj.A after Inc fetched by name = %d, want %d", got, a+1)
+			}
+			if got := m.VM.Get("main.other").GetAttr("A").Int(); got != 77 {
+				return fmt.Sprintf("other.A = %d, want 77", got)
+			}
+			return ""
+		},
+	}
+	if e := ev("nr := 0; func getnr() int { return nr }"); e != "" {
+		return e, cs
+	}
+	core.Shuffle(rng, steps)
+	for _, st := range steps[:rng.Range(2, len(steps))] {
+		if e := st(); e != "" {
+			return e, cs
+		}
+	}
+	return "", cs
+}
+
 // c19SortCase: re-entrant comparator callbacks (slices.SortFunc).
 func c19SortCase(seed int64, idx int) (string, c19Case) {
 	rng := core.Derive(seed, "c19-sort", idx)
@@ -612,10 +736,10 @@ out := run(); out`, strings.Join(xs, ", "))
 }
 
 func runC19(r *core.Run) {
-	r.SetRule("(1) constructor -> accessor round trips over random and boundary values for Int/Int32/Uint/Uint32/Int8/Byte/Uint8/Float64 (bit patterns)/Bool/String (incl. invalid UTF-8)/Nil/NewSlice/NewMap/Wrap; (2) natives of each of the six NewFunc forms x arity 0-6 x results 0-4 x variadic surplus 0-3 called by scripts as a statement, with multi-assign, inside 1 + f(..)*2, as an argument of another native and in a loop with live locals, recording value, type, order and count of what they receive; (3) Call and Func on functions, variadic functions and a bound method value with every requested result count 0..declared; (4) errors raised in natives (string and error panics), in script code called back from natives, three levels deep, inside loops; VM usable afterwards; (5) re-entrant sort comparators; (6) one native re-entered 1-5 levels deep through script code it calls back (Call and Func), each activation re-reading its arguments after the nested one returned; natives are also called as the sole operand of return in a forwarding function, the variadic form with its surplus spread from a slice. non-trivial = every case; distinct by (kind, parameters)")
+	r.SetRule("(1) constructor -> accessor round trips over random and boundary values for Int/Int32/Uint/Uint32/Int8/Byte/Uint8/Float64 (bit patterns)/Bool/String (incl. invalid UTF-8)/Nil/NewSlice/NewMap/Wrap; (2) natives of each of the six NewFunc forms x arity 0-6 x results 0-4 x variadic surplus 0-3 called by scripts as a statement, with multi-assign, inside 1 + f(..)*2, as an argument of another native and in a loop with live locals, recording value, type, order and count of what they receive; (3) Call and Func on functions, variadic functions and a bound method value with every requested result count 0..declared; (4) errors raised in natives (string and error panics), in script code called back from natives, three levels deep, inside loops; VM usable afterwards; (5) re-entrant sort comparators; (7) names whose meaning changes between host calls (function defined again with another variadic-ness, Set again, function variable reassigned) reached through Call and Func, and methods fetched from instances with GetAttr; (6) one native re-entered 1-5 levels deep through script code it calls back (Call and Func), each activation re-reading its arguments after the nested one returned; natives are also called as the sole operand of return in a forwarding function, the variadic form with its surplus spread from a slice. non-trivial = every case; distinct by (kind, parameters)")
 	r.Assume("the harness knows what it passed and built; misuse the API documents as undefined (negative result counts, lying about argc) is not judged")
 	n := r.N(20000, 400000)
-	kinds := []func(int64, int) (string, c19Case){c19RoundTrip, c19NativeCase, c19NativeCase, c19NativeCase, c19CallCase, c19ErrorCase, c19SortCase, c19ReentrantCase}
+	kinds := []func(int64, int) (string, c19Case){c19RoundTrip, c19NativeCase, c19NativeCase, c19NativeCase, c19CallCase, c19ErrorCase, c19SortCase, c19ReentrantCase, c19RebindCase}
 	core.Parallel((n+99)/100, func(chunk int) {
 		for i := chunk * 100; i < (chunk+1)*100 && i < n; i++ {
 			f := kinds[i%len(kinds)]
@@ -654,7 +778,7 @@ func replayC19(r *core.Run, v *core.Violation) {
 	if err := remarshal(v.Case, &cs); err != nil {
 		return
 	}
-	kinds := []func(int64, int) (string, c19Case){c19RoundTrip, c19NativeCase, c19NativeCase, c19NativeCase, c19CallCase, c19ErrorCase, c19SortCase, c19ReentrantCase}
+	kinds := []func(int64, int) (string, c19Case){c19RoundTrip, c19NativeCase, c19NativeCase, c19NativeCase, c19CallCase, c19ErrorCase, c19SortCase, c19ReentrantCase, c19RebindCase}
 	what, c2 := kinds[cs.Idx%len(kinds)](cs.Seed, cs.Idx)
 	fmt.Printf("%+v\n", c2)
 	if what != "" {
